@@ -290,7 +290,8 @@ func traverseMapPath(path []string, operatorMap *orderedmap.OrderedMap[string, a
 	}
 	if isOpMap {
 		opVal, _ := OperatorMapDefs.Get(cutOffPart)
-		withoutArbitraryKey := RemoveElementAfter(path, cutOffPart)
+		// work on a copy: RemoveElementAfter shifts elements in place, and path shares its backing array with the caller's key path
+		withoutArbitraryKey := RemoveElementAfter(slices.Clone(path), cutOffPart)
 		newPath := RemoveElementsBeforeIncluding(withoutArbitraryKey, cutOffPart)
 		if len(newPath) < len(path) {
 			if opValMap, ok := opVal.(*orderedmap.OrderedMap[string, any]); ok {
